@@ -29,7 +29,7 @@ def gen_items(vseed, tier, n):
     rng = core.rng_for(vseed, PROP, "items")
     items = []
     fams = ["expr", "expr", "amb", "amb", "random", "random", "random", "lexamb", "stmt",
-            "nullable", "dyn", "rec"]
+            "nullable", "dyn", "rec", "rrprio", "rrprio"]
     while len(items) < n:
         sc = pool.make_scenario(rng, fams)
         v = rng.randrange(len(sc["texts"]))
